@@ -84,6 +84,8 @@ func registerAll() {
 	reg("L18", "encodability of inlined containers: for every slab size, a slab cannot hold more inlined containers than the one-byte inlined-extra-data index can address (affine bound over setThreshold)", ruleL18)
 	reg("I4", "removal keeps order: no Remove of an element list or array data slab moves an element to another position by an element store (swap-remove)", ruleI4)
 	reg("L19", "CBOR head width table: GetUintCBORSize agrees with the encoder's head widths (1/2/3/5/9 bytes at 23, 2^8-1, 2^16-1, 2^32-1) on every interval of uint64 cut by the constants it compares with", ruleL19)
+	reg("L21", "raw CBOR heads are well formed: every EncodeRawBytes argument, evaluated to constant / run-time bytes (latest dominating write of each scratch position), parses as CBOR items whose first byte is a constant head announcing exactly the bytes that follow; run-time bytes only in announced payload positions; all-run-time chunks only as the announced payload (count * width) of a byte-string head", ruleL21)
+	reg("L22", "limit agreement between writer and reader: no decoder rejects an element / extra-data count that the encoders can write (two-byte count heads; extra-data indexes 0..maxInlinedExtraDataIndex), and each encoder refuses an extra-data index exactly when it exceeds maxInlinedExtraDataIndex", ruleL22)
 	reg("L20", "type-info references are resolved for every kind of inlined extra data: wherever the reference-resolving decoder is built, every callee handed a TypeInfoDecoder receives it (not the plain decoder)", ruleL20)
 	reg("G6", "arrival-independent outcome: no return inside a launcher's receive loop depends on the content of an individual worker result (which error is returned and what was applied before it must not depend on which worker finished first)", ruleG6)
 	reg("N5", "an outdated parent-updater never reads the former parent's slabs: the closure reaches slab storage only on the edge where an in-memory registry of the parent (keyed by the child's value id) still lists the child", ruleN5)
@@ -170,7 +172,7 @@ func registerAll() {
 	}
 	propTable["C07"] = &PropSpec{
 		ID:          "C07",
-		Rules:       []string{"L3", "L4", "L11", "L15", "L20", "L1", "X1"},
+		Rules:       []string{"L3", "L4", "L11", "L15", "L20", "L21", "L22", "L1", "X1"},
 		Explanation: "header flags: each setter/getter pair uses the same byte and single-bit mask, disjoint from type and version bits; each slab encoder sets each flag exactly under the state it describes (root <=> extra data, has-pointers <=> HasPointer(), next <=> sibling link, any-size <=> anySize, inlined-slabs <=> collected extra data) and the V1 decoders and raw-bytes queries consult exactly those flags; vocabularies coincide: every CBOR tag emitted is dispatched (in-package or, by table, by the client decoder) and vice versa, tag numbers are distinct, slab kinds emitted equal kinds dispatched by DecodeSlab, encoders emit version 1 and decoders accept exactly versions 0 and 1; encoders use fixed-width heads matching the size constants; decode dispatch covers every element kind. The key under which the encoder shares one extra-data entry between inlined containers depends on the encoded type information and on every field name, so containers of different type never share an entry.",
 		NotDecided:  "byte-for-byte round trip of arbitrary nested content, compact-map ordering, rejection of trailing bytes.",
 		Technique:   "mask/guard checks on go/ssa, AST vocabulary comparison of encoder and decoder sides, encoder width interpretation",
